@@ -452,6 +452,8 @@ func runParent(env Env, ch *Check, only string) int {
 	}
 	pending := n
 	internal := false
+	confirmedFaults := 0
+	stoppedEarly := false
 	for pending > 0 {
 		j := <-results
 		b, err := os.ReadFile(filepath.Join(j.dir, "result.json"))
@@ -473,6 +475,16 @@ func runParent(env Env, ch *Check, only string) int {
 			if culprit == "" || j.try > 20 {
 				fmt.Fprintf(os.Stderr, "INTERNAL: worker %d died (exit %d) without a culprit\n", j.shard, code)
 				internal = true
+				pending--
+				continue
+			}
+			if confirmedFaults >= 3 {
+				// the check already fails; every further culprit would cost minutes of isolated re-runs
+				if !stoppedEarly {
+					stoppedEarly = true
+					agg.Notes = append(agg.Notes, "three crashes / hangs of the tool confirmed in isolation: remaining cases of the affected shards were not evaluated")
+				}
+				agg.Capped = true
 				pending--
 				continue
 			}
@@ -500,6 +512,19 @@ func runParent(env Env, ch *Check, only string) int {
 			}
 			j.skip = append(j.skip, culprit)
 			j.try++
+			if confirmed == 3 {
+				confirmedFaults++
+			}
+			if confirmedFaults >= 3 {
+				// the check already fails; every further culprit would cost minutes of isolated re-runs
+				if !stoppedEarly {
+					stoppedEarly = true
+					agg.Notes = append(agg.Notes, "three crashes / hangs of the tool confirmed in isolation: remaining cases of the affected shards were not evaluated")
+				}
+				agg.Capped = true
+				pending--
+				continue
+			}
 			launch(j)
 			continue
 		}
